@@ -64,6 +64,7 @@ pub const TEMPLATES: &[&str] = &[
     "clean-basic",
     "clean-cross-file",
     "clean-module-vs-definition",
+    "clean-member-vs-definition",
     "clean-same-names",
     "clean-nested-modules",
     "clean-rich",
@@ -95,7 +96,18 @@ pub const TEMPLATES: &[&str] = &[
     "err-redefinition-cross-file",
     "err-rule",
     "err-wide-text",
+    "err-syntax-after-doc-lint",
+    "err-base-not-an-interface",
+    "err-underlying-not-a-primitive",
+    // Known finding (C07): a cycle that the compiler does not diagnose but dies of (stack overflow). Never drawn at
+    // random (no clean/warn/err prefix); C07 runs it first thing on every run.
+    "abort-cycle-interface",
 ];
+
+/// The templates that are drawn at random (everything except the recorded findings).
+pub fn drawable() -> Vec<&'static str> {
+    TEMPLATES.iter().copied().filter(|t| !t.starts_with("abort-")).collect()
+}
 
 pub fn by_class(want_clean: bool, want_warn: bool, want_err: bool) -> Vec<&'static str> {
     TEMPLATES
@@ -315,6 +327,54 @@ pub fn instantiate(template: &'static str, rng: &mut Rng) -> Program {
             p.files.push(f("bad.slice", format!("module Bad{u}\n[foo]\nstruct S {{ a: int32 }}\n{}", filler(rng, "Bad", fill))));
             p.class = Class::Error;
             p.codes = vec!["E024"];
+        }
+        "clean-member-vs-definition" => {
+            // a member of a definition and a definition inside the module of the same name share a scoped name
+            // (field B of struct Kn::A / struct B of module Kn::A): uses of the name find the definition, in every
+            // file order (the pinned tree let the last file win: fixed)
+            match rng.below(3) {
+                0 => {
+                    p.files.push(f("m1.slice", format!("module Km{u}\nstruct A {{ B: int32 }}\n")));
+                    p.files.push(f("m2.slice", format!("module Km{u}::A\nstruct B {{ x: int32 }}\n")));
+                    p.files.push(f("m3.slice", format!("module Km{u}::A\nstruct C {{ b: B }}\n")));
+                }
+                1 => {
+                    p.files.push(f("m1.slice", format!("module Km{u}\nenum A {{ B, D }}\n")));
+                    p.files.push(f("m2.slice", format!("module Km{u}::A\ncompact struct B {{ x: int32 }}\nstruct C {{ b: Sequence<B> }}\n")));
+                }
+                _ => {
+                    p.files.push(f("m1.slice", format!("module Km{u}\n\n/// See {{@link I::op::p}}.\ninterface I {{\n    op(p: bool)\n}}\n")));
+                    p.files.push(f("m2.slice", format!("module Km{u}::I::op\nstruct p {{ x: int32 }}\nstruct Q {{ a: p }}\n")));
+                }
+            }
+        }
+        "err-syntax-after-doc-lint" => {
+            // a lint on a field of an enumerator / a parameter, then a syntax error later in the same container (the
+            // pinned tree kept the half-built children in the AST and followed their dangling parent pointer: fixed)
+            let text = if rng.chance(1, 2) {
+                format!("module Sx{u}\nenum E {{\n    A(\n        /// {{@link }}\n        f: bool\n    )\n    B(\n}}\n")
+            } else {
+                format!("module Sx{u}\ninterface I {{\n    op(\n        /// {{@link }}\n        p: bool\n    )\n    op2(q: bool) ->\n}}\n")
+            };
+            p.files.push(f("sx.slice", text));
+            p.class = Class::Error;
+            p.codes = vec!["E002"];
+        }
+        "err-base-not-an-interface" => {
+            let base = *rng.pick(&["int32", "Sequence<int32>", "Dictionary<string, bool>", "string"]);
+            p.files.push(f("bn.slice", format!("module Bn{u}\ninterface I : {base} {{}}\n\n{}", filler(rng, "Bn", fill))));
+            p.class = Class::Error;
+            p.codes = vec!["E017"];
+        }
+        "err-underlying-not-a-primitive" => {
+            let under = *rng.pick(&["Sequence<int32>", "Dictionary<int32, bool>", "Result<bool, string>"]);
+            p.files.push(f("un.slice", format!("module Un{u}\nenum E : {under} {{ A }}\n\n{}", filler(rng, "Un", fill))));
+            p.class = Class::Error;
+            p.codes = vec!["E017"];
+        }
+        "abort-cycle-interface" => {
+            p.files.push(f("ci.slice", format!("module Ci{u}\ninterface I : J {{}}\ninterface J : I {{}}\n")));
+            p.class = Class::Error;
         }
         "err-wide-text" => {
             let lead = *rng.pick(&["这个结构已经被弃用了，请改用", "élément dépréciée à côté →", "😀😀😀 см. также"]);
